@@ -271,7 +271,7 @@ Theorem vs_share_f64_spec53 : vs_share_spec (2 ^ 53) vs_share_f64.
 Proof.
   split.
   - intros l p f Hl. apply (vs_share_f64_small l p f Hl).
-  - intros l p f Hl Hpf Hf. apply (vs_share_f64_small l p f Hl); [exact Hpf|unfold vs_two63 in Hf; lia].
+  - intros l p f Hl Hpf Hf. apply (vs_share_f64_small l p f Hl); [lia|unfold vs_two63 in Hf; lia].
   - intros l p f Hl Hpp Hf. apply (vs_share_f64_small l p f Hl); unfold vs_two63 in *; lia.
 Qed.
 
